@@ -315,17 +315,24 @@ class Sym(BaseSym):
     def close(self, a, b, tol=None):
         return a == b
 
-    def model_values(self):
-        """A concrete assignment of all inputs satisfying the current path condition."""
+    def model_values(self, budget_s=None):
+        """A concrete assignment of all inputs satisfying the current path condition.
+        budget_s: for witnesses/samples of passing paths (nice to have): one fresh solver with a short timeout."""
         with NoTracing():
-            s = self.space.solver
-            r = s.check()
-            if str(r) != 'sat':
-                # incremental solver gave up: ask a fresh solver (default tactics)
+            if budget_s is not None:
                 s = z3.Solver()
-                s.set('timeout', int(PORTFOLIO['timeout_s'] * 1000))
+                s.set('timeout', int(budget_s * 1000))
                 s.add(*self.space.solver.assertions())
                 r = s.check()
+            else:
+                s = self.space.solver
+                r = s.check()
+                if str(r) != 'sat':
+                    # incremental solver gave up: ask a fresh solver (default tactics)
+                    s = z3.Solver()
+                    s.set('timeout', int(PORTFOLIO['timeout_s'] * 1000))
+                    s.add(*self.space.solver.assertions())
+                    r = s.check()
             if str(r) != 'sat':
                 raise Inconclusive(f'model query returned {r}')
             m = s.model()
@@ -343,9 +350,18 @@ class Sym(BaseSym):
             assert isinstance(cond, SymbolicBool), type(cond)
             self.obligations += 1
             t0 = time.time()
-            res, backend = portfolio.check_unsat(list(self.space.solver.assertions()), extra=[z3.Not(cond.var)],
-                                                 timeout_s=self.B.get('prove_timeout', 60), order=self.B.get('prove_order', 'z3'),
-                                                 z3_timeout_s=self.B.get('prove_z3_timeout'))
+            # 1. as an unconditional identity (no path condition at all: stronger, and much easier for nlsat)
+            res, backend = 'unknown', 'none'
+            if self.B.get('prove_identity_first', True):
+                res, backend = portfolio.check_unsat([z3.Not(cond.var)], timeout_s=self.B.get('prove_identity_timeout', 10),
+                                                     use_cvc5=False)
+                if res == 'sat':
+                    res = 'unknown'      # not an identity; needs the assumptions
+            # 2. under the path condition (sliced to the cone of influence)
+            if res != 'unsat':
+                res, backend = portfolio.check_unsat(list(self.space.solver.assertions()), extra=[z3.Not(cond.var)],
+                                                     timeout_s=self.B.get('prove_timeout', 60), order=self.B.get('prove_order', 'z3'),
+                                                     z3_timeout_s=self.B.get('prove_z3_timeout'))
             self.portfolio_s += time.time() - t0
             self.backends.add(backend)
             if res == 'unsat':
@@ -437,7 +453,7 @@ def explore(harness, bounds=None, timeout=60.0, per_path=20.0, max_paths=10**7, 
                     newgoals = [g for g in sym.goals if g not in res['goals']]
                     if newgoals or len(res['samples']) < n_samples:
                         try:
-                            vals = sym.model_values()
+                            vals = sym.model_values(budget_s=10)
                             for g in newgoals:
                                 res['goals'][g] = readable(vals)
                             if len(res['samples']) < n_samples:
